@@ -107,4 +107,49 @@ def suite_call(ctx):
     return s
 
 
-SUITES = [suite_call]
+def suite_edges(ctx):
+    """0x78 frames placed before / exactly at / after the P2, P2* and overall deadlines: 0x78 must never be what the caller gets"""
+    from .. import clientlib as cl
+    from udsoncan import Request
+    s = Suite('edges')
+    rng = ctx.rng
+    svcs = cl.services_by_name()
+    lines, impl = [], []
+    for rt in (None, 30, 100, 1000):
+        for p2, p2s in ((10, 40), (40, 10), (100, 100), (2000, 2000)):
+            for _ in range(ctx.n(25, 400)):
+                svc = rng.choice(['ECUReset', 'TesterPresent', 'ReadDataByIdentifier', 'RoutineControl', 'TransferData'])
+                sid = svcs[svc]._sid
+                k = rng.randrange(1, 6)
+                now, single, arr = 0, (p2 if rt is None else min(p2, rt)), []
+                for i in range(k):
+                    w = single if rt is None else min(single, max(rt - now, 0))
+                    t = now + rng.choice([0, w, w, max(w - 1, 0), w + 1, (rt - now) if rt is not None and rt >= now else w])
+                    arr.append((t, bytes([0x7F, sid, 0x78])))
+                    now, single = max(now, t), p2s
+                fin = rng.choice(['neg', 'neg', 'pos', 'none'])
+                if fin != 'none':
+                    w = single if rt is None else min(single, max(rt - now, 0))
+                    t = now + rng.choice([0, w, w + 1])
+                    arr.append((t, bytes([0x7F, sid, rng.choice([0x10, 0x22, 0x31, 0x00, 0xFF])]) if fin == 'neg' else bytes([sid + 0x40, 1, 2])))
+                sw = rng.random() < 0.5
+                cfg = cl.Cfg(rt=rt, p2=p2, p2s=p2s, cb=True, exc=(sw, True, True))
+                client, conn = cl.make_client(cfg)
+                conn.script = list(arr)
+                sf = 1 if svcs[svc].use_subfunction() else None
+                req = Request(svcs[svc], subfunction=sf)
+                # through a decorated wrapper-free path: send_request itself, then the decorator model via `sendd`
+                line = 'send %s svc=%s sf=%s rspr=0 data=- timeout=- arr=%s' % (cfg.line(), svc, onat(sf), cl.arrivals_str(arr))
+                obs = cl.observe(conn, lambda: client.send_request(req))
+                lines.append(line)
+                impl.append(obs)
+                out = obs.split(' out=')[1]
+                s.count('out=' + out.split(':')[0] + ':' + out.split(':')[1].split(' ')[0][:8])
+                if 'code=120' in out or 'negative:120' in out:
+                    s.fail({'site': 'send_request', 'input': line, 'observed': out, 'required': '0x78 is never surfaced (pending replies end in a final reply or a timeout)'})
+    core.compare(s, lines, core.drv_batch(lines), impl)
+    s.sample({'line': lines[0], 'impl': impl[0]})
+    return s
+
+
+SUITES = [suite_call, suite_edges]
